@@ -52,6 +52,19 @@ CHECKS = {
         technique="TLA+ spec (GooseInterface) + TLC over all small graphs/states/residues + trace validation of real interface call histories",
         ref="DESIGN.md section 5, C03",
     ),
+    "C04": dict(
+        text="Decided by reduction. Design theorem by exhaustive TLC on finite chains with exact integer arithmetic: a kernel "
+             "built from MHStep's strict acceptance rule with acceptance min(1, pi(x')q(x|x')/(pi(x)q(x'|x))) is in detailed "
+             "balance, leaks nothing into zero-density states and is stationary; an exact-conditional Gibbs update leaves the "
+             "target invariant per block (hence blockwise sequences do). The premises are bound to the code by the checks "
+             "C05 (acceptance rule), C06 (corrections), C13 (exact conditionals), C09 (sequencing and coherent state), C11 "
+             "(frozen tuning), and here P6: the glue of the HMC/NUTS kernels with blackjax is validated on eager transitions "
+             "with the blackjax factory wrapped (density handed over = model density over the block incl. a transformed "
+             "parameter, start state, write-back, full refresh, untouched other parameters and tuning state).",
+        note="NOT decided: that blackjax's HMC/NUTS integrators and trajectory samplers are pi-invariant, and PRNG quality - trusted third-party base; no statistical sampling test is run. " + TRUST,
+        technique="TLA+ design theorem (Invariance, Gibbs invariance) by TLC + trace validation of the blackjax glue; premises by C05/C06/C09/C11/C13",
+        ref="DESIGN.md section 5, C04 and section 6",
+    ),
     "C05": dict(
         text="The decision rule is a TLA+ operator over IEEE doubles (VFloat); TLC enumerates every "
              "(current, proposed, correction, u) over a grid containing +-inf, NaN and the boundary draw u = 0 and "
